@@ -107,7 +107,7 @@ func (g *gen) setPrimitive(m protoreflect.Message, depth int) {
 		s := stringTexts[n%len(stringTexts)]
 		switch full {
 		case corePkg + "Decimal":
-			s = []string{"1.50", "0", "-3.25", "100"}[n%4]
+			s = []string{"1.50", "0", "-3.25", "100", "0.123456789", "-0.000000004", "37.774929512345", "1234567.123456789012", "0.30000000000000001"}[n%9]
 		case corePkg + "Id":
 			s = []string{"id-1", "A.2", "x"}[n%3]
 		case corePkg + "Uri", corePkg + "Url", corePkg + "Canonical":
